@@ -671,6 +671,7 @@ func hclYamlExtra(t *tr) string {
 	b.WriteString(localsFacts)
 	b.WriteString(hyErrFlow(g, p))
 	b.WriteString(hyNilTests(g, p))
+	b.WriteString(hyR3Facts(g, p))
 	return b.String()
 }
 
@@ -819,7 +820,27 @@ func hyErrFlow(g *hyGen, p *packages.Package) string {
 				}
 				if ifs != nil && (ifs.Init == nil || ifs == self) {
 					cond := hyNodeString(p, ifs.Cond)
-					plain := cond == id.Name+"!=nil" || cond == "nil!="+id.Name || cond == id.Name+".HasErrors()"
+					isPlain := func(c string) bool {
+						return c == id.Name+"!=nil" || c == "nil!="+id.Name || c == id.Name+".HasErrors()"
+					}
+					plain := isPlain(cond)
+					// `e.HasErrors() || other`: the plain test is one disjunct of a top-level || chain — at least as wide
+					var disj func(e ast.Expr)
+					disj = func(e ast.Expr) {
+						if be, ok := e.(*ast.BinaryExpr); ok && be.Op.String() == "||" {
+							disj(be.X)
+							disj(be.Y)
+							return
+						}
+						if pe, ok := e.(*ast.ParenExpr); ok {
+							disj(pe.X)
+							return
+						}
+						if isPlain(hyNodeString(p, e)) {
+							plain = true
+						}
+					}
+					disj(ifs.Cond)
 					switch {
 					case plain && hyReturnsErr(p, ifs.Body, o):
 						how = "returned"
